@@ -705,3 +705,56 @@ def t_cpp_scan_siblings(facts, res, tier):
             if x.get("k") == "if" and "is_empty()" in expr_text(x["cond"]) and "insert_it=false" in expr_text(x).replace(" ", ""):
                 if expr_text(x["cond"]) != "%s.is_empty()" % buf:
                     res.fail(key + ":whole-line", facts.where(fn, x), "a line is suppressed when `%s`, but what decides whether the line carries text is the accumulated buffer `%s`: code before a comment on the same line would be dropped" % (expr_text(x["cond"]), buf))
+
+
+def follow_helpers(facts, fn, depth=2):
+    """fn's nodes plus the bodies of same-impl helper methods it calls on self (any arguments)."""
+    seen = {id(fn)}
+    out = [(fn, n) for n in walk(fn["body"])]
+    frontier = [fn]
+    for _ in range(depth):
+        nxt = []
+        for f in frontier:
+            for n in walk(f["body"]):
+                if n.get("k") == "mcall" and n["recv"].get("k") == "path" and n["recv"]["segs"] == ["self"]:
+                    for h in facts.fns_named(n["method"]):
+                        if h["qual"] == fn["qual"] and id(h) not in seen:
+                            seen.add(id(h))
+                            nxt.append(h)
+                            out += [(h, m) for m in walk(h["body"])]
+        frontier = nxt
+    return out
+
+
+@rule("T-OFFSET-LINE", floor=3,
+      text="syntax_error, compiler_error and warning turn a character offset into the index of the preprocessed line that contains it by counting the newline characters among the first `offset` characters (a loop that stops at the offset before counting, or an equivalent count over the prefix); forms that are off by one at a line start or at offset 0 (count-then-test loops, `lines().count() - 1`) are reported")
+def t_offset_line(facts, res, tier):
+    for fname in ("syntax_error", "compiler_error", "warning"):
+        fn = facts.fn(fname, "CompilerState")
+        key = "T-OFFSET-LINE:%s" % fname
+        nodes = follow_helpers(facts, fn)
+        verdict = None
+        why = ""
+        for owner, n in nodes:
+            if n.get("k") == "for" and "chars()" in expr_text(n["iter"]):
+                st = n["body"]["stmts"]
+                counts = [x for x in walk(n["body"]) if x.get("k") == "if" and "'\\n'" in expr_text(x["cond"]).replace('"', "'") and "+=1" in expr_text(x["then"]).replace(" ", "")]
+                if not counts:
+                    continue
+                first = st[0] if st else {}
+                stop_first = first.get("k") == "if" and "break" in expr_text(first["then"]) and "==loc" in expr_text(first["cond"]).replace(" ", "").replace("(", "").replace(")", "")
+                if stop_first:
+                    verdict = True
+                else:
+                    verdict, why = False, "the loop counts a character before testing whether the offset was reached: offset 0 is never met and the whole text is scanned"
+            t = expr_text(n).replace(" ", "") if n.get("k") == "mcall" and n["method"] == "count" else ""
+            if t:
+                if re.search(r"\[\.\.\w+\]\.(matches\('\\n'\)|chars\(\)\.filter\(.*'\\n'.*\)|bytes\(\)\.filter\(.*\))\.count\(\)$", t.replace('"', "'")) or re.search(r"\.chars\(\)\.take\(\w+\)\.filter\(.*'\\n'.*\)\.count\(\)$", t.replace('"', "'")):
+                    verdict = True
+                elif ".lines().count()" in t:
+                    verdict, why = False, "`lines().count() - 1` is one too small when the offset is the first character of a line (the empty last piece is not a line): such errors are attributed to the previous line"
+        res.inst(key, True, {"function": fname, "recognised": verdict})
+        if verdict is None:
+            res.fail(key, facts.where(fn), "%s: the offset-to-line translation is not one of the forms the rule can show correct (newlines among the first `offset` characters)" % fname)
+        elif verdict is False:
+            res.fail(key, facts.where(fn), "%s: %s" % (fname, why))
